@@ -89,7 +89,10 @@ public:
             aop.resume();
         };
         enqueue(task, Context());
-        aop.suspend();
+        // `task` and `aop` live in this frame and are used by the worker until
+        // aop.resume() returns: never leave before the task has signalled, even
+        // if the wait is given up early (e.g. an ESHUTDOWN interrupt).
+        while (aop.suspend() != 0) {}
     }
 
     int get_vcpu_num() {
